@@ -28,7 +28,10 @@ EXTENDS Integers, Sequences, FiniteSets, TLC, Json, SequencesExt
 CONSTANTS MaxR, MaxC,     \* owners of 1..MaxR x 1..MaxC cells
           MaxDepth,       \* length of the view word
           Slices,         \* FALSE: words of T only (larger owners for Tip)
-          Emit            \* print the cases
+          Emit,           \* print the cases
+          Variant         \* "fixed": the code of branch agent/c10 (what every check run uses);
+                          \* "orig": the mechanism as found at 64329c4, kept so that TLC reproduces
+                          \* the design findings D1, D2, D3, Tip, S1 (checks/c10.py requires the violations)
 
 VARIABLES pr, pc,         \* owner dimensions
           w,              \* the word (contract state)
@@ -94,13 +97,15 @@ DT(h) == Hdr(h.cols, h.rows, h.co, h.cm, h.ro, h.rm, ~h.tr)
 Covers(h) == h.rows = h.rm /\ h.cols = h.cm
 
 (* iterator: ITERATOR() = {m, 0, -1}; Next() = next(); for Ok() && GET() = 0 { next() } *)
-DItOk(h, i, j) == i < h.rows /\ j < h.cols
-DItNext(h, i, j) == IF j = h.cols - 1 THEN <<i + 1, 0>> ELSE <<i, j + 1>>
+DItOk(h, i, j) == IF Variant = "orig" THEN i < h.rm /\ j < h.cm
+                  ELSE i < h.rows /\ j < h.cols
+DItNext(h, i, j) == IF Variant = "orig" THEN (IF j = h.cm - 1 THEN <<i + 1, h.co>> ELSE <<i, j + 1>>)
+                    ELSE IF j = h.cols - 1 THEN <<i + 1, 0>> ELSE <<i, j + 1>>
 RECURSIVE DWalk(_, _, _, _, _)
 DWalk(h, pat, i, j, fuel) ==
   IF fuel = 0 THEN <<<<-9, -9, -9>>>>                              \* does not terminate
   ELSE IF ~DItOk(h, i, j) THEN <<>>
-  ELSE IF i < 0 \/ j < 0 THEN <<<<-1, -1, -1>>>>                   \* GET panics in index()
+  ELSE IF i < 0 \/ j < 0 \/ i >= h.rows \/ j >= h.cols THEN <<<<-1, -1, -1>>>>   \* GET panics in index()
   ELSE LET v == Val(pat, DIndex(h, i, j))                          \* dense storage: key k holds cell k
            n == DItNext(h, i, j)
        IN IF v = 0 THEN DWalk(h, pat, n[1], n[2], fuel - 1)
@@ -118,17 +123,17 @@ DJson(h) == IF h.tr \/ h.rm > h.rows \/ h.cm > h.cols
             THEN [p \in 1..(h.rows * h.cols) |-> DIndex(h, (p - 1) \div h.cols, (p - 1) % h.cols)]
             ELSE [p \in 1..(h.rows * h.cols) |-> p - 1]
 (* AsVector / AsConstVector: the storage itself for an owner, a row-major copy for a proper view *)
-DAsVector(h) == IF Covers(h) THEN [p \in 1..(h.rm * h.cm) |-> p - 1]
+DAsVector(h) == IF Covers(h) \/ Variant = "orig" THEN [p \in 1..(h.rm * h.cm) |-> p - 1]
                 ELSE [p \in 1..(h.rows * h.cols) |-> DIndex(h, (p - 1) \div h.cols, (p - 1) % h.cols)]
 (* Reset: storage keys that are zeroed *)
-DReset(h) == IF Covers(h) THEN 0..(h.rm * h.cm - 1)
+DReset(h) == IF Covers(h) \/ Variant = "orig" THEN 0..(h.rm * h.cm - 1)
              ELSE {DIndex(h, i, j) : i \in 0..(h.rows - 1), j \in 0..(h.cols - 1)}
 (* Tip on a matrix that is its whole storage: cycle-leader permutation of the storage,
    the element at key x moves to x*R mod (mn-1) with R the number of STORAGE rows *)
 TipPerm(x, R, mn) == IF x = mn - 1 THEN x ELSE (x * R) % (mn - 1)
 DTip(h) ==
   LET mn == h.rm * h.cm
-      R  == IF h.tr THEN h.cols ELSE h.rows
+      R  == IF h.tr /\ Variant # "orig" THEN h.cols ELSE h.rows
       \* st[k] = number of the cell found at storage key k afterwards
       st == [k \in 0..(mn - 1) |-> CHOOSE x \in 0..(mn - 1) : TipPerm(x, R, mn) = k]
   IN [h |-> Hdr(h.cols, h.rows, h.co, h.cm, h.ro, h.rm, h.tr), st |-> st]
@@ -150,10 +155,11 @@ SWalk(s, pat, k) ==
   ELSE LET v == Val(pat, s.st[k])
            ij == SIJ(s.h, k)
        IN IF v = 0 THEN SWalk(s, pat, k + 1)
+          ELSE IF Variant = "orig" THEN <<<<ij[1], ij[2], v>>>> \o SWalk(s, pat, k + 1)
           ELSE IF ij[1] >= s.h.rows THEN <<>>
           ELSE IF ij[1] < 0 \/ ij[2] < 0 \/ ij[2] >= s.h.cols THEN SWalk(s, pat, k + 1)
           ELSE <<<<ij[1], ij[2], v>>>> \o SWalk(s, pat, k + 1)
-SIter(s, pat) == SWalk(s, pat, s.h.ro * s.h.cm + s.h.co)
+SIter(s, pat) == SWalk(s, pat, IF Variant = "orig" THEN 0 ELSE s.h.ro * s.h.cm + s.h.co)
 SIterFrom(s, pat, i, j) == SWalk(s, pat, SIndex(s.h, i, j))
 SConstRow(s, i) == [j \in 1..s.h.cols |-> s.st[SIndex(s.h, i, 0) + (j - 1)]]
 STip(s) ==
@@ -203,6 +209,8 @@ IterOK == \A pat \in Pats :
              /\ \A i \in 0..(VR - 1), j \in 0..(VC - 1) :
                   /\ DIterFrom(hd, pat, i, j) = IterFromSeq(w, VR, VC, pat, i, j)
                   /\ SIterFrom(sp, pat, i, j) = IterFromSeq(w, VR, VC, pat, i, j)
+DIterOK == \A pat \in Pats : DIter(hd, pat) = IterSeq(w, VR, VC, pat)
+SIterOK == \A pat \in Pats : SIter(sp, pat) = IterSeq(w, VR, VC, pat)
 RowColOK == /\ \A i \in 0..(VR - 1) : /\ DConstRow(hd, i) = RowsOf(w, VR, VC)[i + 1]
                                        /\ SConstRow(sp, i) = RowsOf(w, VR, VC)[i + 1]
             /\ \A j \in 0..(VC - 1) : DConstCol(hd, j) = ColsOf(w, VR, VC)[j + 1]
